@@ -4,9 +4,26 @@ and write a meta.json skeleton; `confirm` results are merged into meta.json by t
 import json, os, shutil, sys
 V = os.path.dirname(os.path.dirname(os.path.abspath(__file__)))
 r2 = '--round2' in sys.argv
-for P in [a for a in sys.argv[1:] if not a.startswith('--')]:
+# seed_import.py --tree <dir> [--round2] P        the candidates are in <dir>/_seed/{a,b}
+# seed_import.py --tree <dir> --refactor P        behaviour-preserving patches <dir>/_seed/{a..d} -> seeded/refactor/P{a..d}/
+tree = sys.argv[sys.argv.index('--tree') + 1] if '--tree' in sys.argv else None
+if '--refactor' in sys.argv:
+    P = [a for a in sys.argv[1:] if not a.startswith('--') and a != tree][0]
+    for x in 'abcd':
+        src = os.path.join(tree, '_seed', x)
+        dst = os.path.join(V, 'seeded', 'refactor', P + x)
+        if not os.path.exists(os.path.join(src, 'patch.diff')) or os.path.getsize(os.path.join(src, 'patch.diff')) == 0 or os.path.exists(dst):
+            print('skip', src)
+            continue
+        os.makedirs(dst)
+        for f in ('patch.diff', 'notes.md'):
+            if os.path.exists(os.path.join(src, f)):
+                shutil.copy(os.path.join(src, f), dst)
+        print('imported', dst)
+    sys.exit(0)
+for P in [a for a in sys.argv[1:] if not a.startswith('--') and a != tree]:
     for x in 'ab':
-        src = '/tmp/wt/%s%s/_seed/%s' % ('r2_' if r2 else '', P, x)
+        src = os.path.join(tree, '_seed', x) if tree else '/tmp/wt/%s%s/_seed/%s' % ('r2_' if r2 else '', P, x)
         if not os.path.exists(os.path.join(src, 'patch.diff')) or os.path.getsize(os.path.join(src, 'patch.diff')) == 0:
             print('skip', src)
             continue
